@@ -968,6 +968,7 @@ impl<'a> Ctx<'a> {
             let mappings = v["mappings"].as_str().unwrap().to_string();
             reqs.push(Sexp::call("sm.check", vec![Sexp::str(generated.as_str()), Sexp::str(mappings.as_str()), Sexp::int(sources.len() as i128), Sexp::int(names.len() as i128)]));
             reqs.push(Sexp::call("sm.decode", vec![Sexp::str(mappings.as_str())]));
+            reqs.push(Sexp::call("sm.strict", vec![Sexp::str(mappings.as_str())]));
             metas.push((rel, sources, names, src_texts, is_op, generated));
         }
         let ans = self.drv.batch(&reqs);
@@ -1004,7 +1005,10 @@ impl<'a> Ctx<'a> {
             if model_sources != real_sources {
                 self.rep.fail("K", "e2e:sources-list", &format!("{rel}: sources {real_sources:?}, model of FileMap gives {model_sources:?} (store order {store:?})"), case.clone());
             }
-            let check = &ans[2 * i];
+            let check = &ans[3 * i];
+            if ans[3 * i + 2].args().first().and_then(|x| x.as_atom()) != Some("true") {
+                self.rep.fail("O", "e2e:empty-segment", &format!("{rel}: `mappings` contains an empty segment (see mappings_strict_iff): {:?}", ans[3 * i + 2]), case.clone());
+            }
             if check.head() != Some("ok") {
                 for pr in check.args() {
                     let kind = pr.head().unwrap_or("?");
@@ -1012,7 +1016,7 @@ impl<'a> Ctx<'a> {
                     self.rep.fail("O", &sig, &format!("{rel}: {pr} — decoded `mappings` of the emitted map violates the spec check (sources = {sources:?})"), case.clone());
                 }
             }
-            let Some(segs) = parse_decoded(&ans[2 * i + 1]) else { continue };
+            let Some(segs) = parse_decoded(&ans[3 * i + 1]) else { continue };
             let mut prev_named: Option<(i128, i128, i128, String)> = None;
             let mut nontrivial = false;
             for (si, s) in segs.iter().enumerate() {
